@@ -10,6 +10,17 @@ var evidenceUnclaimed map[string]bool
 
 var safetyNameRe =regexp.MustCompile(`:(nil|index|slice|div0|shift|typeassert|chan|makeslice|nilmap|panic):\d+$`)
 
+func isKnownFinding(prop, obligation string) bool {
+	var known []KnownFinding
+	readJSON(verifDir+"/known_findings.json", &known)
+	for _, k := range known {
+		if k.Property == prop && k.Obligation == obligation && k.Status == "known" {
+			return true
+		}
+	}
+	return false
+}
+
 // funcStillPresent: the function an obligation name belongs to was verified in this run.
 func funcStillPresent(name string, out *runOutput) bool {
 	loc := safetyNameRe.FindStringIndex(name)
